@@ -261,6 +261,11 @@ def jobs(tier, seed):
                 for b in bursts:
                     js.append({'harness': 'port', 'weight': 10 if mode != 'none' else 1,
                                'cfg': {'rate': rate, 'mode': mode, 'n': n, 'sorts': sort, 'burst': b}})
+    # longer workloads, few timing variables: two bursts (queue fills, drains partly, fills again)
+    m = 6 if tier == 'quick' else 7
+    for mode in ('bytes', 'pkts'):
+        js.append({'harness': 'port', 'weight': 40, 'opts': {'max_paths': 20000},
+                   'cfg': {'rate': 8, 'mode': mode, 'n': m, 'sorts': 'int', 'burst': [0, 1, 1, 0, 1, 1, 1][:m]}})
     # an element id that is falsy but present ('' is a string like any other)
     js.append({'harness': 'port', 'weight': 1, 'cfg': {'rate': 8, 'mode': 'none', 'n': 2, 'sorts': 'int', 'burst': [0, 0], 'eid': ''}})
     for rate in (0, 8):
